@@ -610,6 +610,37 @@ def step (root : T) (recv : Path) (notifyOn : Bool) : Op → Out
   | .delSlice a b st => applyEdit root recv notifyOn (editDelSlice a b st)
   | .imul k => applyEdit root recv notifyOn (editIMul k)
 
+/-! ### handlers that mutate during notification (re-entrant dispatch)
+
+A change handler (`_on_change` / `_on_bound` of an object, the `onchange_callback` of a Dict / List)
+may itself issue an ordinary mutating call — on its own node, on a descendant, on an ancestor. That
+call is complete before the handler returns: it writes, and its events are delivered to *every*
+subscribing ancestor-or-self of what it wrote, the node whose handler is running included; only then
+the outer dispatch goes on with its next receiver. The nesting is bounded by `fuel` (the handlers of
+the harness stop reacting at that depth). -/
+
+/-- What the handler of the node with identity `id` does on every event it receives: nothing, or one
+call (receiver path from the root, operation). -/
+abbrev React := Nat → Option (Path × Op)
+
+/-- Deliver the events of one call in order; after each delivery the receiver's handler may run a
+nested call (`nested`), whose own log comes right after the event that triggered it. -/
+def dispatchWith (nested : T → Nat → T × List Event) (t : T) : List Event → T × List Event
+  | [] => (t, [])
+  | e :: rest =>
+    let r1 := nested t e.recv
+    let r2 := dispatchWith nested r1.1 rest
+    (r2.1, e :: r1.2 ++ r2.2)
+
+/-- One notified call with re-entrant handlers, at most `fuel` levels of nesting: the tree
+afterwards and the log of all deliveries in the order in which the handlers ran. -/
+def stepR (react : React) : Nat → T → Path → Op → T × List Event
+  | 0, t, recv, op => ((step t recv true op).tree, (step t recv true op).events)
+  | f + 1, t, recv, op =>
+    dispatchWith (fun t' id => match react id with
+        | some (rp, rop) => stepR react f t' rp rop
+        | none => (t', [])) (step t recv true op).tree (step t recv true op).events
+
 /-! ### derived state: `sym_nondefault()` / `sym_missing()` against the value specs
 
 What a node reports depends on its contents and on the value specs only, never on identities or
